@@ -32,8 +32,8 @@ CLAIMED = {
             "Per run: requests only for calls addressed to the current peer, new canon results attributed to it, next peers without self/duplicates and covering every peer marked by the remote-call/unseen-canon sites. At quiescence of lossless histories no state remains marked as sent but unexecuted.",
             "Known finding F2 (remote call marked sent with unresolved arguments) is classified by its probe and sender."),
     "C08": ("exploration", "deterministic simulation: end-of-history observer merges of all peers' final and intermediate data in seeded permutations, a two-level grouping and at a participant",
-            "For every honest history, merging the same set of data in three orders, in a two-observer grouping and at a participating peer must give the same content-id knowledge (and identical traces modulo senders for stream-free scripts); any merge failure is a violation.",
-            "Permutations are sampled (3 per history), not enumerated."),
+            "For every honest history, merging the same set of data in all orders (n! for n <= 3 blobs, and for n = 4 in 40% of the histories; otherwise 3 orders), in a two-observer grouping and at a participating peer must give the same content-id knowledge (and identical traces modulo senders for stream-free scripts); any merge failure is a violation.",
+            "Exhaustive over orders for small sets only; known findings F1, F17, F22 are classified by their probes."),
     "C12": ("exploration", "deterministic simulation: generation-order monitor over consecutive data of each peer, per single-instance stream",
             "For every run of honest histories and every stream with a single instance: call-produced values keep their relative generation order, previous-data values precede values that came only with the current data, which precede values produced in the run.",
             "Values are identified by content id via rule U; new-scoped streams under folds and ap-produced values are not compared."),
@@ -46,13 +46,13 @@ CLAIMED = {
     "C22": ("exploration", "deterministic simulation with per-peer limit knobs for whole histories plus per-run boundary configurations (size-1, size, size+1, 0, 2x, max) against an unlimited twin",
             "Hard mode rejects with the matching size error and returns previous data iff a size exceeds its limit; soft mode raises exactly the exceeded flags and is otherwise identical (decoded) to the unlimited twin run.",
             "Twin comparison is per run; soft-limited peers also run whole histories under their knobs."),
-    "C01": ("fault_enumeration", "deterministic simulation with a Byzantine participant and a corrupting transport against history-produced previous data: tamper catalog, wholesale re-attribution with structural mutation, byte corruption; crash, abort and heap monitors on every invocation and on the other public entry points",
+    "C01": ("fault_enumeration", "deterministic simulation with a Byzantine participant, a corrupting transport, mutated scripts, malformed call results and boundary-valued service results against history-produced previous data: tamper catalog, wholesale re-attribution with structural mutation, byte corruption; crash, abort and heap monitors on every invocation and on the other public entry points",
             "Every interpreter invocation of every sampled history must return (no panic, no worker death, no watchdog kill) and stay within peak heap <= 64*(input bytes)+16 MiB; to_human_readable_data, parse and beautify are called on everything that crosses the wire under the same oracle.",
             "Known findings F7 (non-JSON raw value) and F15 (non-UTF-8 CID passing rkyv validation) are classified by panic location / message. Random-text fuzzing of the parser is not this family's job and is not claimed."),
     "C14": ("fault_enumeration", "deterministic simulation with a Byzantine participant applying a tamper catalog (single ops and pairs) to data it legitimately holds, re-signing only its own result set; must-reject oracle, untampered-twin positional comparison and a whole-history content-id backstop",
             "Ops that alter values, content ids, tetraplets, argument hashes, signatures or the particle id of another peer's results must be rejected with the previous data returned; for ops that pass verification the receiver's output is compared position by position with a twin run on the untampered message; no honest peer's data may ever attribute to an honest peer a content id that peer did not produce.",
             "Catalog-based: covers the listed op kinds, not arbitrary forgeries; canon results are covered by the backstop and signature ops only."),
-    "C15": ("fault_enumeration", "deterministic simulation with a lost-durable-writes (store rollback) fault that makes an honest-code peer equivocate; independent per-peer multiset comparison of previous and current data",
+    "C15": ("fault_enumeration", "deterministic simulation with two equivocation faults - lost durable writes (store rollback) that make an honest-code peer sign diverging sets, and a sender that rewrites one of its own results and re-signs; independent per-peer multiset comparison of previous and current data",
             "If some peer's signed result multisets in previous and current data are incomparable the run must be rejected in preparation with the previous data returned; otherwise the merged data keeps for every other peer the signature that came with its larger set and that signature verifies over the merged data's multiset.",
             "Equivocation arises only when the rolled-back peer continues on a diverging input; counted in evidence (c15_equivocations_rejected)."),
     "C11": ("exploration", "deterministic simulation: cross-peer, cross-time comparison of every canonical value handed to a service, plus first-execution content check on the designated peer",
@@ -60,13 +60,13 @@ CLAIMED = {
             "Canon instances are identified through rule U (iterators passed as arguments); the content check applies to single-instance streams fed by calls only."),
     "C13": ("exploration", "deterministic simulation of shape-restricted scripts: append phase from several peers, local canon as observation point, probing fold (optionally recursive), drained to quiescence",
             "The local canon holds exactly the appends replayed or performed before it (no duplicate, none missing); the fold never visits a value twice or a value that is not in the stream; at quiescence of lossless histories every stream value in the folding peer's data has been visited exactly once.",
-            "Known finding F16 (recursive stream cursor skips replayed values with small generation numbers) is classified by its probe. The STREAM_MAX_SIZE boundary is not exercised."),
+            "Known finding F16 (recursive stream cursor skips replayed values with small generation numbers) is classified by its probe. The STREAM_MAX_SIZE boundary is exercised by one history in 331 (n x m appends around 1023/1024: canon length below the limit, stream-size error at it)."),
     "C16": ("exploration", "deterministic simulation against an independent sequential reference evaluator R of the fragment",
             "Every call request issued by any peer in any sampled history of a fragment script must be a call R makes, with the same peer, service, function and argument values.",
             "R (sim/src/refmodel.rs, ~400 lines, no code shared with /repo) is trusted for the fragment; inclusion only, as the property states."),
-    "C17": ("exploration", "deterministic simulation against the reference evaluator's provenance tracking",
+    "C17": ("exploration", "deterministic simulation against the reference evaluator's provenance tracking, plus a store/embedded-origin oracle for whole canon-stream arguments",
             "The tetraplets of every argument of every request equal R's expectation: init peer with empty service/function for literals and built-ins; producing peer/service/function plus the exact lens text for scalars, lens paths, ap-derived values and fold iterators, wherever the value was produced and however it reached the caller.",
-            "Canon-stream arguments, .length, :error:/%last_error% are excluded (DESIGN.md C17)."),
+            "Whole canon-stream arguments are checked without R (one tetraplet per element; an element with an empty lens is the whole result of the call its tetraplet names, at the addressed peer; the (values, tetraplets) sequence equals a canon result in the returned data's CID stores). Canon maps, .length, :error:/%last_error% are excluded (DESIGN.md C17)."),
     "C18": ("exploration", "deterministic simulation of paired histories: the same failing instruction caught by xor (probe reads :error:) and left uncaught in a surfacing context, plus a succeeding-left variant",
             "The (error_code, message) seen in the xor right branch equals the (ret_code, error_message) of the run in which the same failure is not caught; the right branch never runs when the left branch succeeds; failures that are uncatchable when uncaught are never caught.",
             "Inside folds only the first iteration is compared (an uncaught failure stops the fold there)."),
